@@ -79,7 +79,15 @@ def run(chk: core.Check, tier: str, seed: int) -> None:
     dl = sorted(derived)
     if tier == "quick" and len(dl) > 3000:
         dl = sorted(dl, key=len)[-400:] + rng.sample(dl, 2600)
-    cands = list(dict.fromkeys(cands + dl))
+    # GEN: the valid ones among all texts  prefix u1..un suffix  over five unit families (MC_Parser.tla; TLC also checks
+    # T15 there: the implementation-shaped parser of Parser.tla accepts them and builds the RFC's query)
+    from .. import parserconf  # noqa: PLC0415
+    ugens, uruns = parserconf.unit_texts(tier, "c03_units")
+    for label, res in uruns:
+        chk.add_tlc(label, res)
+    uacc = [core.dec_text(g["q"]) for g in ugens if g["rfc"] != "reject"]
+    chk.notes["unit_texts_valid"] = len(uacc)
+    cands = list(dict.fromkeys(cands + dl + uacc))
     recs = [impl.rec_compile(jp, q, env=(fresh if k % 7 == 0 else None)) for k, q in enumerate(cands)]
     del keep
     for r in recs:
